@@ -314,6 +314,8 @@ def gen_instance(seed, index, profile=None, max_trips=10, allow_weird=False):
          "dh": rng.choice([1, 2, 4, 9]), "idle": rng.choice([0, 1, 2])}
     if p == "hitchhike":
         c["dh"] = c["staff"] + c["svc"] + rng.choice([0, 1, 3])
+    if rng.random() < 0.04:
+        c = {"staff": 0, "svc": 0, "mnt": 0, "dh": 0, "idle": 0}     # nothing costs anything (valid: coefficients are Ints)
     I["costs"] = c
     I["mntCostGiven"] = rng.random() < 0.7
     if not I["mntCostGiven"]:
